@@ -454,7 +454,11 @@ class Prog:
         return r[0]
 
     def user_bodies(self):
-        return [b for b in self.bodies.values() if not b.promoted]
+        # a helper that inline.py spliced into every one of its call sites lives on in its callers: rules that sweep all bodies judge
+        # the code there (the body itself stays in self.bodies for look-ups by name)
+        if getattr(self, '_spliced', None) is None:
+            self._spliced = {r.get('tree') for r in (getattr(self, 'renamed', None) or []) if r.get('kind') == 'inlined-helper'}
+        return [b for b in self.bodies.values() if not b.promoted and b.id not in self._spliced]
 
     def callers(self):
         """callee id -> list of (Body, bi)"""
